@@ -122,9 +122,12 @@ class Case:
     operation and agreed with / was verified by the reference at least once) held"""
     def __init__(s, part, spec, pfx):
         s.part = part; s.spec = spec; s.pfx = pfx; s.positive = False; s.refused = None; s.sub = 0
+        s.sfx = ':key-imported-with-leading-zero-octets' if spec.get('imp') == 'lead0' else ''          # appended to the input class
     def V(s, entry, cls, outcome, what, **wit):
         w = {'spec': {k: v for k, v in s.spec.items()}, 'cfg': s.pfx.rstrip(':') or 'asan'}; w.update({k: (v.hex() if isinstance(v, (bytes, bytearray)) else v) for k, v in wit.items()})
         # a symptom seen under another configuration whose un-prefixed key is a listed finding is that same finding (SoftHSM.cpp-level defects do not depend on the back-end)
+        if s.sfx:          # one class per scheme family for the non-canonical import (the defect, if any, is in the key handling, not in the hash variant)
+            import re; cls = re.sub(r'CKM_(SHA\d+_)?RSA_PKCS_PSS', 'RSA-PSS', re.sub(r':leading-zero-(signature|ciphertext)', '', cls)) + s.sfx
         pfx = '' if KNOWN().match('C10', 'C10|%s|%s|%s' % (entry, cls, outcome)) else s.pfx
         s.part.violation('%s|%s%s|%s' % (entry, pfx, cls, outcome), what, w)
     def ok(s): s.positive = True; s.sub += 1
@@ -153,12 +156,14 @@ def mac_like(o, c, sp, rnd, mech, mname, hsign, hverify, data, want, determinist
     ref_verify(sig)->bool for randomised schemes; ref_sign()->a reference-made signature the token must accept."""
     g = o.sign(mech, hsign, data)
     if g[0] != 'CKR_OK' and g[2] == 'init': c.refused = g[0]; return False
+    signed = True                                   # a case normally stops at its first disagreement; with a non-canonically imported key the verify side is still exercised
     if deterministic:
-        if not same_or_viol(c, 'C_Sign', mname, g, want, 'signature/MAC', data=data[:64]): return False
+        if not same_or_viol(c, 'C_Sign', mname, g, want, 'signature/MAC', data=data[:64]): signed = False
     else:
-        if g[0] != 'CKR_OK': c.V('C_Sign', mname, 'failed:' + g[0], 'the token failed to sign where the mechanism is defined', data=data[:64]); return False
-        elif not ref_verify(g[1]): c.V('C_Sign', mname, 'reference-cannot-verify', 'the independent implementation rejects the token signature', data=data[:64], sig=g[1]); return False
+        if g[0] != 'CKR_OK': c.V('C_Sign', mname, 'failed:' + g[0], 'the token failed to sign where the mechanism is defined', data=data[:64]); signed = False
+        elif not ref_verify(g[1]): c.V('C_Sign', mname, 'reference-cannot-verify', 'the independent implementation rejects the token signature', data=data[:64], sig=g[1]); signed = False
         else: c.ok()
+    if not signed and not c.sfx: return False
     refsig = want if deterministic else ref_sign()
     v = o.verify(mech, hverify, data, refsig)
     if v[0] != 'CKR_OK' and v[1] == 'init': c.part.observe('verify-init-refused', {'mech': mname, 'rv': v[0]})
@@ -174,8 +179,9 @@ def mac_like(o, c, sp, rnd, mech, mname, hsign, hverify, data, want, determinist
         if v[0] == 'CKR_OK': c.V('C_Verify', mname + ':tampered-signature', 'accepted', 'verification succeeds after one bit of the signature/MAC was changed', data=data[:64], sig=refsig, tampered=bad)
         else: c.sub1()
     if multi:
-        parts = split(rnd, data); pl = [len(p) for p in parts]; g = o.sign(mech, hsign, data, parts)
-        if g[0] != 'CKR_OK': c.V('C_SignUpdate', mname + chunkclass(parts), 'multipart-failed:' + g[0], 'multi-part signing failed at %s' % g[2], parts=pl)
+        parts = split(rnd, data); pl = [len(p) for p in parts]; g = o.sign(mech, hsign, data, parts) if signed else ('CKR_OK', want, 'skipped')
+        if not signed: pass
+        elif g[0] != 'CKR_OK': c.V('C_SignUpdate', mname + chunkclass(parts), 'multipart-failed:' + g[0], 'multi-part signing failed at %s' % g[2], parts=pl)
         elif deterministic and g[1] != want: c.V('C_SignUpdate', mname + chunkclass(parts), 'multipart-differs-from-single', 'multi-part signature/MAC differs from the single-part one', parts=pl, got=g[1], want=want)
         elif not deterministic and not ref_verify(g[1]): c.V('C_SignUpdate', mname + chunkclass(parts), 'multipart-reference-cannot-verify', 'the reference rejects the multi-part signature', parts=pl, sig=g[1])
         else: c.ok()
@@ -260,7 +266,7 @@ def until_lz(make, tries=6000):
         if r[-1][0] == 0: return r
     raise AssertionError('no leading-zero value found')
 def case_rsa_sign(o, c, sp, rnd):
-    K = KF.load(); k = K['rsa'][sp['bits']]; hp = o.t.rsa_priv(k); hu = o.t.rsa_pub(k); kind = sp['kind']; x = o.x; ck = o.t.ck; h = sp.get('h')
+    K = KF.load(); k = K['rsa'][sp['bits']]; l0 = sp.get('imp') == 'lead0'; hp = o.t.rsa_priv(k, lead0=l0); hu = o.t.rsa_pub(k, lead0=l0); kind = sp['kind']; x = o.x; ck = o.t.ck; h = sp.get('h')
     if sp.get('lz'):
         # boundary: the signature value starts with a zero byte
         if kind == 'x509':
@@ -288,7 +294,7 @@ def case_rsa_sign(o, c, sp, rnd):
                  ref_sign=lambda: k.sign_pss(data, h, sl, prehashed=pre, rnd=rnd), multi=not pre)
 
 def case_rsa_enc(o, c, sp, rnd):
-    K = KF.load(); k = K['rsa'][sp['bits']]; hp = o.t.rsa_priv(k); hu = o.t.rsa_pub(k); x = o.x; ck = o.t.ck; mname = sp['mech']; data = rb(rnd, sp['mlen'])
+    K = KF.load(); k = K['rsa'][sp['bits']]; l0 = sp.get('imp') == 'lead0'; hp = o.t.rsa_priv(k, lead0=l0); hu = o.t.rsa_pub(k, lead0=l0); x = o.x; ck = o.t.ck; mname = sp['mech']; data = rb(rnd, sp['mlen'])
     lz = bool(sp.get('lz')); cls = mname + (':leading-zero-ciphertext' if lz else '')
     if mname == 'CKM_RSA_X_509':
         if len(data) == k.k: data = R.i2osp(R.os2ip(data) % k.n, k.k)
@@ -364,8 +370,8 @@ def distinct_key(sp):
         if sp['mode'] == 'ctr': extra = (sp['bits'], 'near' if sp['near'] else 'far')
         if sp['mode'] == 'gcm': extra = (sp['ivlen'], min(sp['aadlen'], 33), sp['tagbits'])
         return (f, sp['mech'], sp['klen'], lenclass(sp['mlen'], bs)) + extra
-    if f == 'rsa_sign': return (f, sp['kind'], sp['bits'], sp.get('h'), sp.get('slen'), min(sp.get('mlen', 0), 300), bool(sp.get('lz')))
-    if f == 'rsa_enc': return (f, sp['mech'], sp['bits'], sp['mlen'], bool(sp.get('lz')))
+    if f == 'rsa_sign': return (f, sp['kind'], sp['bits'], sp.get('h'), sp.get('slen'), min(sp.get('mlen', 0), 300), bool(sp.get('lz')), sp.get('imp'))
+    if f == 'rsa_enc': return (f, sp['mech'], sp['bits'], sp['mlen'], bool(sp.get('lz')), sp.get('imp'))
     if f == 'dsa': return (f, tuple(sp['ln']), sp.get('h'), min(sp['mlen'], 300))
     if f in ('ecdsa', 'eddsa'): return (f, sp['curve'], min(sp['mlen'], 300), sp.get('oid'))
     return (f, sp['kind'], sp.get('group') or sp.get('curve'), sp.get('enc'), sp['peer'])
@@ -478,6 +484,9 @@ def specs(ctx, rnd, thorough):
         for l in sorted({0, 1, 16, 32, k - 12, k - 11}): add(fam='rsa_enc', mech='CKM_RSA_PKCS', bits=bits, mlen=l)
         for l in sorted({0, 1, 16, 32, k - 43, k - 42}): add(fam='rsa_enc', mech='CKM_RSA_PKCS_OAEP', bits=bits, mlen=l)
         for l in sorted({1, 16, k - 1, k}): add(fam='rsa_enc', mech='CKM_RSA_X_509', bits=bits, mlen=l)
+    # the same RSA cases with keys whose CKA_MODULUS and every other component were imported with a leading 00 octet: must behave exactly like the canonical import
+    for sp_ in [dict(s_) for s_ in S if s_['fam'] in ('rsa_sign', 'rsa_enc') and s_['bits'] in ((1024, 1025) if q else (1024, 1025, 2048)) and (s_.get('lz') or rnd.random() < (0.45 if q else 0.6))]:
+        sp_['imp'] = 'lead0'; sp_['seed'] = rnd.getrandbits(48); S.append(sp_)
     # DSA
     for ln in (((1024, 160),) if q else ((1024, 160), (2048, 224), (2048, 256), (3072, 256))):
         ql = ln[1] // 8
